@@ -6,9 +6,9 @@ PROP=$1; W=$2; N=$3; SLUG=$4
 V=$(cd "$(dirname "$0")/.." && pwd)
 cd "$W" || exit 2
 git checkout -q -- . 
-/venv/bin/python _seed/demo$N.py > /tmp/seed-demo-clean.out 2>&1; RC0=$?
+/venv/bin/python _seed/demo$N.py > $W/_seed/demo-clean.out 2>&1; RC0=$?
 git apply _seed/change$N.diff || { echo "APPLY-FAILED"; exit 3; }
-/venv/bin/python _seed/demo$N.py > /tmp/seed-demo-changed.out 2>&1; RC1=$?
+/venv/bin/python _seed/demo$N.py > $W/_seed/demo-changed.out 2>&1; RC1=$?
 T=$(/venv/bin/python -m pytest -q -p no:cacheprovider --timeout=900 2>&1 | grep -E "^[0-9]+ (passed|failed)|passed|failed" | tail -1)
 git checkout -q -- .
 echo "demo clean rc=$RC0, demo changed rc=$RC1, tests: $T"
@@ -17,7 +17,7 @@ case "$T" in *"534 passed"*) ;; *) echo "REJECT: unexpected test summary"; exit 
 [ $RC0 -eq 0 ] && [ $RC1 -ne 0 ] || { echo "REJECT: demo does not discriminate"; exit 1; }
 D=$V/seeded/$PROP-$SLUG; mkdir -p "$D"
 cp _seed/change$N.diff "$D/patch.diff"; cp _seed/demo$N.py "$D/demo.py"
-tail -5 /tmp/seed-demo-changed.out > "$D/demo-output-with-change.txt"
+tail -5 $W/_seed/demo-changed.out > "$D/demo-output-with-change.txt"
 cat > "$D/meta.json" <<EOM
 {"property": "$PROP", "needs": "TODO", "confirmed": "applied in scratch worktree $W: demo exit $RC0 without / $RC1 with the change; test suite with the change: $T", "detected_by": "TODO"}
 EOM
